@@ -12,6 +12,7 @@
 #include "Archive/VolFile.h"
 #include "Archive/ClmFile.h"
 #include <memory>
+#include <unistd.h>
 #include <set>
 #include <functional>
 
@@ -170,7 +171,7 @@ void gridCase(std::size_t which, Ctx& ctx)
 // ------------------------------------------------------------------------------------------------
 // (b) interleavings: joint BFS over several live readers
 // ------------------------------------------------------------------------------------------------
-enum OKind { oRead1, oRead2, oPartial3, oSeek0, oFwd1, oBack1, oPeek1, oArchive };
+enum OKind { oRead1, oRead2, oPartial3, oSeek0, oFwd1, oBack1, oPeek1, oArchive, oSliceHere };
 struct JOp { int obj; int kind; int arg = 0; };
 
 struct Obj {
@@ -179,7 +180,23 @@ struct Obj {
 	std::vector<uint8_t> bytes;   // what this object must expose
 	uint64_t mpos = 0;
 	bool boundsChecked = true;    // a plain FileReader does not promise bounds checks: only in-bounds operations are driven on it
+	std::function<void(uint64_t, Obj&)> sliceHere;   // r.Slice(n) on the typed reader (the form that slices at the current position); fills reader and key of the new object
 };
+
+// wraps a typed reader into an Obj; the slice-at-position form of a MemoryReader gives a MemoryReader, that of a FileReader
+// or of a file slice gives a file slice
+template <class R>
+void fillObj(Obj& o, std::unique_ptr<R> r)
+{
+	R* raw = r.get();
+	o.key = [raw] { return peek::key(*raw); };
+	o.sliceHere = [raw](uint64_t n, Obj& out) {
+		typedef decltype(std::declval<R&>().Slice(uint64_t(0))) S;
+		auto sl = std::make_unique<S>(raw->Slice(n));
+		fillObj<S>(out, std::move(sl));
+	};
+	o.r = std::move(r);
+}
 
 struct Joint {
 	using Op = JOp;
@@ -193,26 +210,35 @@ struct Joint {
 	std::string name;
 	std::function<std::unique_ptr<State>()> make;
 	int nArchiveOps = 0;
+	int dynSlot = -1;                 // index of the slot that holds the most recent slice made at some object's current position (empty at first)
+	std::vector<int> sliceLens = {};  // lengths n of the Slice(n) operations offered on every object
 
 	std::unique_ptr<State> fresh() { return make(); }
 	std::unique_ptr<State> clone(const State&) { return nullptr; }
 	std::string key(const State& s)
 	{
 		std::string k;
-		for (auto& o : s.objs) { k += o.key(); k += "#" + std::to_string(o.mpos) + ";"; }
+		for (auto& o : s.objs) {
+			if (!o.r) { k += "-;"; continue; }
+			k += o.key(); k += "#" + std::to_string(o.mpos) + ";";
+		}
+		if (dynSlot >= 0 && s.objs[std::size_t(dynSlot)].r) { auto& b = s.objs[std::size_t(dynSlot)].bytes; k += "win=" + mc::hex(b.data(), b.size()); }   // which window the dynamic slice covers
 		if (s.extraKey) k += s.extraKey();
 		return k;
 	}
 	std::string show(const Op& o)
 	{
-		static const char* n[] = { "Read(1)", "Read(2)", "ReadPartial(3)", "Seek(0)", "SeekForward(1)", "SeekBackward(1)", "Peek(1)", "archive" };
+		static const char* n[] = { "Read(1)", "Read(2)", "ReadPartial(3)", "Seek(0)", "SeekForward(1)", "SeekBackward(1)", "Peek(1)", "archive", "Slice" };
+		if (o.kind == oSliceHere) return "o" + std::to_string(dynSlot) + "=o" + std::to_string(o.obj) + ".Slice(" + std::to_string(o.arg) + ")";
 		return "o" + std::to_string(o.obj) + "." + n[o.kind] + (o.kind == oArchive ? std::to_string(o.arg) : "");
 	}
 	std::vector<Op> enabled(const State& s)
 	{
 		std::vector<Op> v;
+		for (int i = 0; i < int(s.objs.size()); ++i) if (s.objs[i].r) for (int n : sliceLens) v.push_back({ i, oSliceHere, n });
 		for (int i = 0; i < int(s.objs.size()); ++i) for (int k = 0; k < 7; ++k) {
 			const Obj& o = s.objs[i];
+			if (!o.r) continue;
 			uint64_t rem = o.bytes.size() - o.mpos;
 			if (!o.boundsChecked) {
 				if ((k == oRead1 || k == oPeek1 || k == oFwd1) && rem < 1) continue;
@@ -232,6 +258,24 @@ struct Joint {
 			auto o = mc::guarded([&] { d = s.archiveOp(op.arg); });
 			if (o.cls != 'R') return bad("archive-call-fails", o.what);
 			if (!d.empty()) return bad("archive-call-observation", d);
+		}
+		else if (op.kind == oSliceHere) {
+			Obj& src = s.objs[op.obj];
+			uint64_t n = uint64_t(op.arg), rem = src.bytes.size() - src.mpos;
+			Obj made;
+			auto o = mc::guarded([&] { src.sliceHere(n, made); });
+			if (n <= rem) {
+				if (o.cls != 'R') return bad("slice-at-position-refused", o.what);
+				made.bytes.assign(src.bytes.begin() + std::ptrdiff_t(src.mpos), src.bytes.begin() + std::ptrdiff_t(src.mpos + n));
+				made.mpos = 0;
+				if (op.obj != dynSlot) src.mpos += n;      // the parent has advanced by n
+				s.objs[std::size_t(dynSlot)] = std::move(made);
+				if (check) ctx.count("interleaving/slices-made-at-a-position");
+			}
+			else {
+				if (o.cls == 'R') return bad("slice-at-position-beyond-the-end-accepted", "n=" + std::to_string(n) + " remaining=" + std::to_string(rem));
+				if (check) ctx.count("interleaving/slices-at-a-position-refused");    // parent and every other object unchanged: checked below
+			}
 		}
 		else {
 			Obj& ob = s.objs[op.obj];
@@ -265,6 +309,7 @@ struct Joint {
 		if (check) {
 			// every object still at its own position
 			for (std::size_t i = 0; i < s.objs.size(); ++i) {
+				if (!s.objs[i].r) continue;
 				uint64_t p = ~0ull, l = ~0ull;
 				auto o = mc::guarded([&] { p = s.objs[i].r->Position(); l = s.objs[i].r->Length(); });
 				if (o.cls != 'R' || p != s.objs[i].mpos || l != s.objs[i].bytes.size())
@@ -322,6 +367,37 @@ std::unique_ptr<Joint::State> makeFileJoint(const std::string& path)
 		st->objs.push_back(std::move(o));
 	};
 	add(std::move(A), 1, 4); add(std::move(B), 2, 3); add(std::move(C), 1, 4); add(std::move(D), 2, 2);
+	return st;
+}
+
+// systems with a dynamic slot: parent, A = parent.Slice(1, len-2) [, B = A.Slice(1, len-4)], and an empty slot that receives x.Slice(n)
+std::unique_ptr<Joint::State> makeMemDyn(std::size_t len, bool withB)
+{
+	auto st = std::make_unique<Joint::State>();
+	auto keep = std::make_shared<MemKeep>();
+	auto bytes = pattern(len);
+	keep->p.reset(new uint8_t[len]); std::memcpy(keep->p.get(), bytes.data(), len);
+	auto parent = std::make_unique<Stream::MemoryReader>(keep->p.get(), len);
+	auto A = std::make_unique<Stream::MemoryReader>(parent->Slice(1, len - 2));
+	std::unique_ptr<Stream::MemoryReader> B; if (withB) B = std::make_unique<Stream::MemoryReader>(A->Slice(1, len - 4));
+	auto add = [&](std::unique_ptr<Stream::MemoryReader> r, std::size_t s, std::size_t n) { Obj o; fillObj(o, std::move(r)); o.bytes.assign(bytes.begin() + s, bytes.begin() + s + n); st->objs.push_back(std::move(o)); };
+	add(std::move(parent), 0, len); add(std::move(A), 1, len - 2); if (withB) add(std::move(B), 2, len - 4);
+	st->objs.emplace_back();
+	st->keep = keep;
+	return st;
+}
+
+std::unique_ptr<Joint::State> makeFileDyn(const std::string& path, std::size_t len, bool withB)
+{
+	auto st = std::make_unique<Joint::State>();
+	auto bytes = pattern(len);
+	auto parent = std::make_unique<Stream::FileReader>(path);
+	auto A = std::make_unique<Stream::FileSliceReader>(parent->Slice(1, len - 2));
+	std::unique_ptr<Stream::FileSliceReader> B; if (withB) B = std::make_unique<Stream::FileSliceReader>(A->Slice(1, len - 4));
+	{ Obj o; fillObj(o, std::move(parent)); o.bytes = bytes; o.boundsChecked = false; st->objs.push_back(std::move(o)); }
+	auto add = [&](std::unique_ptr<Stream::FileSliceReader> r, std::size_t s, std::size_t n) { Obj o; fillObj(o, std::move(r)); o.bytes.assign(bytes.begin() + s, bytes.begin() + s + n); st->objs.push_back(std::move(o)); };
+	add(std::move(A), 1, len - 2); if (withB) add(std::move(B), 2, len - 4);
+	st->objs.emplace_back();
 	return st;
 }
 
@@ -384,10 +460,34 @@ void jointCase(std::size_t which, Ctx& ctx)
 		ctx.sample("joint BFS over {parent[6], A=Slice(1,4), B=Slice(2,3), C=copy(A), D=A.Slice(1,2)} x 7 ops: states=" + std::to_string(r.states) + " transitions=" + std::to_string(r.transitions) + " fixpoint=" + (r.fixpoint ? "yes" : "no"));
 		return;
 	}
+	if (which == 4) {
+		std::size_t len = ctx.thorough ? 7 : 5; bool withB = ctx.thorough;
+		Joint j{ ctx, "memory-dyn", [=] { return makeMemDyn(len, withB); }, 0 };
+		j.dynSlot = withB ? 3 : 2; j.sliceLens = ctx.thorough ? std::vector<int>{ 1, 2, 3 } : std::vector<int>{ 1, 2 };
+		auto r = mc::bfs(j, ctx, 2000000, 1000, "joint-mem-dyn");
+		ctx.trace(r.transitions);
+		ctx.sample("joint BFS with slices made at the current position of every live object (memory): states=" + std::to_string(r.states) + " transitions=" + std::to_string(r.transitions) + " fixpoint=" + (r.fixpoint ? "yes" : "no"));
+		return;
+	}
 	std::string dir = ctx.freshDir("c13b");
-	if (which == 1) {
-		std::string path = dir + "/p.bin";
-		mc::writeFile(path, pattern(6));
+	if (which == 5) {
+		std::size_t len = ctx.thorough ? 7 : 5; bool withB = ctx.thorough;
+		std::string path = dir + "/pd.bin";
+		mc::writeFile(path, pattern(len));
+		Joint j{ ctx, "file-dyn", [=] { return makeFileDyn(path, len, withB); }, 0 };
+		j.dynSlot = withB ? 3 : 2; j.sliceLens = ctx.thorough ? std::vector<int>{ 1, 2, 3 } : std::vector<int>{ 1, 2 };
+		auto r = mc::bfs(j, ctx, 2000000, 1000, "joint-file-dyn");
+		ctx.trace(r.transitions);
+		ctx.count(r.fixpoint ? "interleaving/file-fixpoint" : "interleaving/file-depth-bounded");
+	}
+	else if (which == 1) {
+		// the file is reached through a spelling that only the operating system resolves correctly: lnk -> real/deep, so
+		// lnk/../p.bin is real/p.bin, whereas the lexically shortened spelling names the decoy next to lnk
+		mc::makeDir(dir + "/real"); mc::makeDir(dir + "/real/deep");
+		if (::symlink("real/deep", (dir + "/lnk").c_str()) != 0) std::abort();
+		mc::writeFile(dir + "/real/p.bin", pattern(6));
+		mc::writeFile(dir + "/p.bin", pattern(6, 0x90));
+		std::string path = dir + "/lnk/../p.bin";
 		Joint j{ ctx, "file", [path] { return makeFileJoint(path); }, 0 };
 		auto r = mc::bfs(j, ctx, 20000, depthFile, "joint-file");
 		ctx.trace(r.transitions);
@@ -566,7 +666,7 @@ void equivCase(std::size_t which, Ctx& ctx)
 	mc::removeTree(dir);
 }
 
-std::size_t kGrid = 12; const std::size_t kJoint = 4, kEquiv = 4;
+std::size_t kGrid = 12; const std::size_t kJoint = 6, kEquiv = 4;
 
 void runCase(std::size_t i, Ctx& ctx)
 {
